@@ -404,6 +404,7 @@ pub(crate) use fail;
 impl<F: Fam> Ctx<F> {
     pub fn new(case: &Case) -> Ctx<F> {
         ledger_reset();
+        vh_default_reset();
         let mk = |i: usize| -> (Slot<F>, Meta) {
             let vh = case.hashers[i];
             let cap = case.init_cap[i] as usize;
